@@ -28,6 +28,11 @@ type flushCase struct {
 	// FlushTags: the tags carried by successive Tflush requests (0, NOTAG and
 	// other corner values included); when exhausted, 60, 61, … are used
 	FlushTags []uint16 `json:"flush_tags,omitempty"`
+	// Reuse: the target's tag was used just before by a request whose reply has
+	// reached the peer while the server goroutine that wrote it has not yet
+	// returned from the transport Write (it finishes only once the target is
+	// executing)
+	Reuse bool `json:"reuse,omitempty"`
 }
 
 const (
@@ -90,7 +95,28 @@ func runFlushCase(c flushCase, st *flushStats) *fail {
 	}
 	gate := memfs.NewGate(func(cl *memfs.Call) bool { return cl.Seq == base+holdAt })
 	var held *memfs.Call
+	var resumePaused func()
 	waitStart := time.Now()
+	if c.Reuse && c.Target != "rename-release" {
+		// an earlier request with the target's tag: its reply (header and body: two
+		// Writes) is delivered, the writing goroutine is paused inside the second
+		entered, resume := p.s.S2C.PauseAfterWriteAt(p.s.S2C.Writes() + 2)
+		defer resume()
+		p.s.Send(refcodec.Encode(withTag(tStatfs(0), tagTarget)))
+		select {
+		case <-entered:
+		case <-time.After(20 * time.Second):
+			return failf("harness-reuse", "HARNESS-ERROR the earlier reply was not written in two Writes")
+		}
+		if ok, f := p.waitFor(tagTarget, 1, 20*time.Second); f != nil || !ok {
+			return failf("harness-reuse", "HARNESS-ERROR the earlier reply did not arrive (%v)", f)
+		}
+		p.frames = nil // the earlier reply is not part of the scenario
+		base = p.fs.Seq()
+		gate = memfs.NewGate(func(cl *memfs.Call) bool { return cl.Seq == base+holdAt })
+		// the paused goroutine goes on as soon as the target is inside the backend
+		resumePaused = resume
+	}
 	if c.Target == "rename-release" {
 		// A third connection holds the only fid on the renamed entry. The rename
 		// is first held inside that File's Renamed notification, the third
@@ -143,6 +169,11 @@ func runFlushCase(c flushCase, st *flushStats) *fail {
 		select {
 		case held = <-gate.Entered:
 		case <-time.After(2 * time.Millisecond):
+			if resumePaused != nil && time.Since(waitStart) > 60*time.Millisecond {
+				// the target does not get that far: its own reply needs the paused writer out of the way
+				resumePaused()
+				resumePaused = nil
+			}
 			if f := p.drain(time.Millisecond); f != nil {
 				return f
 			}
@@ -158,6 +189,10 @@ func runFlushCase(c flushCase, st *flushStats) *fail {
 		}
 	}
 events:
+	if resumePaused != nil {
+		resumePaused()
+		time.Sleep(5 * time.Millisecond)
+	}
 	released := held == nil
 	flushTags := map[int]uint16{}
 	nextTag := uint16(tagFlush0)
@@ -352,6 +387,7 @@ func genFlushCase(rt *rapid.T) flushCase {
 	for i := rapid.IntRange(0, 3).Draw(rt, "nft"); i > 0; i-- {
 		c.FlushTags = append(c.FlushTags, rapid.SampledFrom([]uint16{0, 0xffff, 1, 2, 0xfffe, 0x8000, 70}).Draw(rt, "ftag"))
 	}
+	c.Reuse = rapid.IntRange(0, 3).Draw(rt, "reuse") == 0
 	n := rapid.IntRange(1, 8).Draw(rt, "nev")
 	nf := 0
 	rel := false
@@ -416,7 +452,7 @@ func TestC14(t *testing.T) {
 						perms = permutations(idx)
 					}
 					for _, perm := range perms {
-						c := flushCase{Native: hold%2 == 0, Target: tg, HoldAt: hold}
+						c := flushCase{Native: hold%2 == 0, Target: tg, HoldAt: hold, Reuse: (hold+len(evs))%3 == 0}
 						// corner values for the flushes' own tags, varied deterministically
 						c.FlushTags = [][]uint16{{0, 0xffff}, nil, {0xffff, 0}, {1, 0}}[(hold+len(evs)+len(perm))%4]
 						for _, i := range perm {
